@@ -27,7 +27,7 @@
   (VObj (vobj Int))
   (VOther (votype Int) (voref Int))  ; every other dynamic type (foreign values, typed slices, pointers ...)
 )))
-(declare-datatypes ((Heap 0)) (((mkheap (hq (Array Int (Array Int Val))) (hm (Array Int (Array Int Val))) (hd (Array Int (Array Int Bool))) (hc (Array Int Int))))))
+(declare-datatypes ((Heap 0)) (((mkheap (hq (Array Int (Array Int Val))) (hm (Array Int (Array Int Val))) (hd (Array Int (Array Int Bool))) (hc (Array Int Int)) (hsp (Array Int Int)) (hsv (Array Int Int))))))
 (define-fun nilslice () Slice (mkslice 0 0 0 0))
 (define-fun niliface () Iface (mkiface 0 0))
 (define-fun MaxInt () Int 9223372036854775807)
@@ -131,7 +131,6 @@
 ; @section core
 ; allocation limit: the largest element count a make() may ask for (anything above is a runtime panic)
 (define-fun MaxAlloc () Int 281474976710656)
-(declare-fun errors.repoSentinel (Iface) Bool)
 ; floats are uninterpreted except for the facts listed here (DESIGN.md 2.3)
 (declare-fun f64.add (F64 F64) F64) (declare-fun f64.sub (F64 F64) F64) (declare-fun f64.mul (F64 F64) F64) (declare-fun f64.div (F64 F64) F64)
 (declare-fun f64.neg (F64) F64) (declare-fun f64.eq (F64 F64) Bool) (declare-fun f64.lt (F64 F64) Bool) (declare-fun f64.le (F64 F64) Bool)
